@@ -216,7 +216,7 @@ def step (_ : Unit) (line : String) : Unit × String :=
           match parseValAll ty rest with
           | some v => toHex (save ty v)
           | none => "bad-op"
-        else if op == "rt" || op == "srt" then
+        else if op == "rt" || op == "srt" || op == "crt" || op == "zrt" then   -- crt/zrt: cache / session store_data + fetch_data
           match parseValAll ty rest with
           | some v =>
             let b := save ty v
